@@ -298,6 +298,13 @@ fn parse_fields(s: &str) -> (String, Option<E>) {
         Ok(Ok(t)) => canon_tokens(&format!("{:?}", t)),
         Ok(Err(e)) => canon_tok_err(&format!("{:?}", e)),
     };
+    // the Display text of an error is what a caller (and every Python user) sees: it must exist and be the same
+    // text whenever the same string is parsed (`i.`: not an observation of the model)
+    let msg = match catch_unwind(AssertUnwindSafe(|| E::from_str(s).err().map(|e| e.to_string()))) {
+        Err(_) => " i.msg=panic".to_string(),
+        Ok(None) => String::new(),
+        Ok(Some(m)) => format!(" i.msg={}", hex(&m)),
+    };
     let (parse, show, eo) = match catch_unwind(AssertUnwindSafe(|| E::from_str(s))) {
         Err(_) => ("panic".to_string(), "-".to_string(), None),
         Ok(Ok(e)) => (show_expr(&e), hex(&e.to_string()), Some(e)),
@@ -310,7 +317,7 @@ fn parse_fields(s: &str) -> (String, Option<E>) {
         Ok(Some(Ok(e))) => show_expr(&e),
         Ok(Some(Err(e))) => format!("err:{:?}", e),
     };
-    (format!("tok={} parse={} pt={} show={}", tok, parse, pt, show), eo)
+    (format!("tok={} parse={} pt={} show={}{}", tok, parse, pt, show, msg), eo)
 }
 
 fn kind_char(o: &Obj) -> &'static str {
@@ -377,8 +384,14 @@ fn csv_in(file: bool, text: &str) -> Result<T, String> {
         Ok(t) => Ok(t),
         Err(e) => {
             // the message must be printable too (it is what Python users see)
-            let _ = e.to_string();
-            Err(csv_err_name(&e).to_string())
+            // ... and is part of the result (determinism): `i.` marks an observation the model does not make
+            // (the io::Error text of the file entry point is the operating system's, not compared)
+            let msg = e.to_string();
+            let dup = match &e {
+                bbf::table::csv::error::TruthTableFromCsvError::DuplicateVariableName { name } => format!(" dup={}", if name.is_empty() { "~".to_string() } else { hex(name) }),
+                _ => String::new(),
+            };
+            if csv_err_name(&e) == "IOError" { Err(csv_err_name(&e).to_string()) } else { Err(format!("{}{} i.msg={}", csv_err_name(&e), dup, hex(&msg))) }
         }
     }
 }
